@@ -180,7 +180,15 @@ def _worker(job):
                 for rpath in rpaths:
                     if rpath == 'stream_1' and size > 70000:
                         continue
-                    if rpath.startswith('stale_'):
+                    if rpath.startswith('scan_'):
+                        # the lookup strategy of large requests (one sorted scan of the index instead of IN queries)
+                        old = Container._MAX_CHUNK_ITERATE_LENGTH  # pylint: disable=protected-access
+                        Container._MAX_CHUNK_ITERATE_LENGTH = 0  # pylint: disable=protected-access
+                        try:
+                            got, reported = read(cont, rpath[5:], key)
+                        finally:
+                            Container._MAX_CHUNK_ITERATE_LENGTH = old  # pylint: disable=protected-access
+                    elif rpath.startswith('stale_'):
                         got, reported = read(stale, rpath[6:], key)
                     else:
                         got, reported = read(cont, rpath, key)
